@@ -7,6 +7,7 @@ import (
 	"fmt"
 	"math"
 	"os"
+	"os/exec"
 	"path/filepath"
 	"reflect"
 	"runtime/debug"
@@ -655,43 +656,70 @@ func (r *Runner) exec(op map[string]any) (string, error) {
 		verifhook.Set(nil)
 		return res(err)
 	case "VDeleteCut":
-		// hold the cascade goroutine at its first instruction, shut the engine down (which
-		// cancels the cascade), then restart: recovery has to repair the dangling edges
+		// the process dies inside the cascade, then the restart: recovery has to finish the cascade from the VDEL
+		// record. (A shutdown no longer cuts the cascade short -- Close waits for it since 4330e40 -- so the cut is a
+		// crash image: the data directory as the OS sees it at the cut point, everything journaled so far flushed.)
 		tick()
-		gate := make(chan struct{})
-		// where the shutdown cuts the cascade rotates: before its first edge, after one edge, after two edges
-		// (the specification's outcome does not depend on it: recovery completes the cascade from the VDEL record)
+		// where the cascade is cut rotates: before its first edge, after one edge, after two edges
+		// (the specification's outcome does not depend on it)
 		cutAfter := r.cuts % 3
 		r.cuts++
 		var edges int32
+		img := r.Dir + "-img"
+		os.RemoveAll(img)
+		var imgErr error
+		taken := false
+		done := make(chan struct{}, 1)
+		takeImage := func() {
+			if taken {
+				return
+			}
+			taken = true
+			e.AOF.Flush()
+			imgErr = exec.Command("cp", "-a", "--sparse=always", r.Dir, img).Run()
+		}
 		verifhook.Set(func(name string, kv []any) {
 			if r.ExtraHook != nil {
 				r.ExtraHook(name, kv)
 			}
 			if name == "cascade.start" && cutAfter == 0 {
-				<-gate
+				takeImage()
 			}
 			if name == "cascade.edge" && cutAfter > 0 {
 				if int(atomic.AddInt32(&edges, 1)) == cutAfter+1 {
-					<-gate
+					takeImage()
 				}
+			}
+			if name == "cascade.done" {
+				takeImage() // fewer edges than the cut point: the image of the finished cascade, still before any shutdown step
+				done <- struct{}{}
 			}
 		})
 		err := e.VDelete(str(op, "n"), r.id(str(op, "id")))
 		if err != nil {
-			close(gate)
 			verifhook.Set(nil)
 			return res(err)
 		}
-		closed := make(chan error, 1)
-		go func() { closed <- e.Close() }()
-		time.Sleep(10 * time.Millisecond)
-		close(gate)
-		cerr := <-closed
+		select {
+		case <-done:
+		case <-time.After(5 * time.Second):
+			verifhook.Set(nil)
+			return "", fmt.Errorf("delete cascade did not finish within 5s")
+		}
 		verifhook.Set(nil)
+		cerr := e.Close()
 		r.E = nil
 		if cerr != nil {
 			return "", fmt.Errorf("close: %w", cerr)
+		}
+		if imgErr != nil {
+			return "", fmt.Errorf("crash image: %w", imgErr)
+		}
+		if err := os.RemoveAll(r.Dir); err != nil {
+			return "", err
+		}
+		if err := os.Rename(img, r.Dir); err != nil {
+			return "", err
 		}
 		if err := r.open(); err != nil {
 			r.LastErr = err.Error()
